@@ -2,7 +2,7 @@
 Correspondence of lean/LimnoriaModel/C13/Model.lean with src/shlex.py, callbacks.Tokenizer,
 callbacks.tokenize and utils.str.dqrepr; plus the property statement evaluated on the implementation."""
 import codecs, json, os, sys, warnings
-from vlib import wire, rng, leanbuild, verdict, bot, CORPUS
+from vlib import wire, rng, leanbuild, verdict, bot, CORPUS, VERIF
 from vlib.verdict import Case
 
 PROPERTY = 'C13'
@@ -218,6 +218,42 @@ def gen_tree(r, depth):
             out.append(gen_arg(r))
     return out
 
+BARE = 'abcxyzABC0189_-.,;:!?#@$%&*+=/~^éß中😀'
+def gen_bare_tree(r, depth):
+    """items: ('w', bare word) | ('q', any text, written quoted) | list"""
+    out = []
+    for _ in range(r.choice([0, 1, 2, 2, 3, 4])):
+        x = r.random()
+        if depth > 0 and x < 0.4:
+            out.append(gen_bare_tree(r, depth - 1))
+        elif x < 0.8:
+            out.append(('w', ''.join(r.choice(BARE) for _ in range(r.randint(1, 5)))))
+        else:
+            out.append(('q', gen_arg(r)))
+    return out
+
+def render_bare(r, items, l, rr):
+    """blanks only where two bare words would run together (else optional)"""
+    out = ''
+    prev = None
+    for it in items:
+        if isinstance(it, list):
+            piece = l + render_bare(r, it, l, rr) + rr; kind = 'b'
+        elif it[0] == 'w':
+            piece = it[1]; kind = 'w'
+        else:
+            piece = quote(it[1]); kind = 'q'
+        # a word directly followed by a quote char would swallow it (shlex appends quotes inside a word)
+        need = prev is not None and (prev == 'w' and kind in 'wq')
+        if prev is not None and (need or r.random() < 0.5):
+            out += r.choice([' ', ' ', '  ', '\t'])
+        out += piece
+        prev = kind
+    return out
+
+def bare_value(items):
+    return [bare_value(it) if isinstance(it, list) else it[1] for it in items]
+
 def render(t, l, rr, sep):
     if isinstance(t, str):
         return quote(t)
@@ -335,6 +371,13 @@ def explore(impl, r, n, corpus=()):
         s = sep.join(render(x, b[0], b[1], sep) for x in t)
         if not valid_unicode(s): continue
         ex.tok(cf, s, 'nest', expect=t, extra_tags=('w:nest',))
+    for _ in range(n.get('nestw', 0)):
+        b = r.choice(BRACKETS[1:])
+        cf = (True, b, r.random() < 0.3, r.choice(['"', '"', '"\'', '`"']))
+        items = gen_bare_tree(r, r.randint(0, 5))
+        s = render_bare(r, items, b[0], b[1])
+        if not valid_unicode(s): continue
+        ex.tok(cf, s, 'nestw', expect=bare_value(items), extra_tags=('w:nestw',))
     for _ in range(n.get('deep', 0)):
         d = r.randint(50, 200)
         b = r.choice(BRACKETS[1:])
@@ -405,7 +448,7 @@ def finding_status(impl):
         st[f['id']] = (r != xs, 'tokenize(dqrepr(%r)) = %r' % (xs, r if r is not None else out))
     return st
 
-COUNTS_QUICK = dict(raw=80000, quote=30000, dqrepr=20000, nest=12000, deep=40, T=15000, lex=25000, handle=25000, uesc=20000, writers=6000)
+COUNTS_QUICK = dict(raw=80000, quote=30000, dqrepr=20000, nest=12000, nestw=12000, deep=40, T=15000, lex=25000, handle=25000, uesc=20000, writers=6000)
 
 def run(ctx):
     build = leanbuild.ensure(PROPERTY, THEOREMS, thorough=ctx.thorough, extractors=['Tokenizer'])
@@ -429,7 +472,7 @@ def run(ctx):
                 for b in BRACKETS:
                     seeds.append(dict(s=t, brackets=b, pipeSyntax=bool(i.get('pipe', False)), quotes=i.get('quotes', '"') or '"'))
                     seeds.append(dict(xs=[t], brackets=b, quotes='"'))
-        more = explore(impl, rr, dict(raw=60000, quote=40000, nest=15000, deep=20), seeds)
+        more = explore(impl, rr, dict(raw=60000, quote=40000, nest=15000, nestw=15000, deep=20), seeds)
         return [c for c in more.cases if c.oracle_ok is False]
     return verdict.conclude(PROPERTY, ctx.tier, ctx.seed, build, cases, search=search, rule=RULE,
                             finding_status=finding_status(impl), trusted_base=TRUSTED,
@@ -440,8 +483,10 @@ def run(ctx):
                             t0=ctx.t0)
 
 def replay(ctx, path):
-    impl = Impl()
+    if not os.path.isabs(path) and not os.path.exists(path):
+        path = os.path.join(VERIF, path)
     d = json.load(open(path))
+    impl = Impl()
     c = d.get('case') or d.get('first_disagreement')
     print(json.dumps(c, indent=1, ensure_ascii=True))
     if not c:
